@@ -856,7 +856,7 @@ def check(ctx):
                         "str.replace) ; upd: the edit changes at least one equation; yaml: >= 2 nodes and >= 1 edge; distinct canonical JSON. "
                         "The exhaustive stream is counted in `evaluations` only.",
                    samples=sample,
-                   extra=dict(streams=kinds, yaml_modes=modes, exhaustive=dict(alphabet=ALPHA, terms=TERMS, replacements=["X", ""] if quick else ["X", "", "rr"],
+                   extra=dict(streams=kinds, yaml_modes=modes, exhaustive_space=dict(alphabet=ALPHA, terms=TERMS, replacements=["X", ""] if quick else ["X", "", "rr"],
                                                                                real_function_max_len=big_len, real_function_one_sided_flags_max_len=flag_len,
                                                                                coq_model_max_len=small_len, **stats,
                               note="Coq model (loopA with flags; replace_words_sided for equal flags) evaluated by vm_compute on ALL strings up to coq_model_max_len, "
